@@ -20,6 +20,7 @@ package timer
 // recurringTimer with repetition count n (n == -1: unbounded).  `fired` = ncalls(f) - old(ncalls(f)).
 //@ func recurringTimer
 //@   prop C13 C07
+//@   flag spawnpre
 //@   requires f != nil && final != nil && f != final && fncode(f) != fncode(final)
 //@   requires interval.Repititions >= -1 && interval.Interval.Start != nil
 //@   ensures [at-most-n] interval.Repititions >= 0 ==> ncalls(f) - old(ncalls(f)) <= interval.Repititions
